@@ -175,7 +175,12 @@ def dense_value(rng, ir, t, depth=3):
         if depth <= 0 and t.get('min_occurs', 0) == 0:
             return None
         out = {'__class__': t['ref']}
+        seen_groups = set()
         for fn, ft in gen.all_fields(ir, t['ref']):
+            if 'choice' in ft:
+                if ft['choice'] in seen_groups:
+                    continue          # one member per choice group
+                seen_groups.add(ft['choice'])
             if depth <= 0 and not ('prim' in ft or 'enum' in ft or 'attr' in ft or 'xmldata' in ft) and ft.get('min_occurs', 0) == 0:
                 continue
             x = dense_value(rng, ir, ft, depth - 1)
